@@ -615,7 +615,7 @@ def python_sources(case):
     for s in case['sources']:
         if s.get('kind') in ('frame', 'pydict', 'pyjson', 'pylist'):
             out['var_' + s['key']] = {'type': s['kind'], 'cols': list(s['cols']), 'rows': [[plain_value(v) for v in r] for r in s['rows']],
-                                     'null_style': s.get('null_style', 'null'), 'dtypes': s.get('dtypes')}
+                                     'null_style': s.get('null_style', 'null'), 'dtypes': s.get('dtypes'), 'dup_index': s.get('dup_index')}
     return out
 
 
